@@ -255,6 +255,8 @@ pub struct Walk {
     /// listing per directory (all slots in order, up to and including everything the chain holds)
     pub dir_slots: HashMap<DirLoc, Vec<Slot>>,
     pub junk_exposed: Vec<(String, u32, u32)>,
+    /// junk records inside a live directory's clusters but behind its end marker
+    pub junk_in_extent: Vec<(String, u32, u32)>,
     /// total length of all chains stored so far (bounds the work on garbage directories)
     pub chain_total: usize,
 }
@@ -479,6 +481,13 @@ impl<'a> Snap<'a> {
                 w.junk_exposed.push((path.clone(), s.blk, s.off));
             }
         }
+        // ... or sitting anywhere else in the directory's clusters (a lookup that walks block by
+        // block does not stop at an end marker in an earlier block)
+        if w.junk_exposed.is_empty() {
+            if let Some(s) = slots.iter().find(|s| is_junk_record(&s.raw)) {
+                w.junk_in_extent.push((path.clone(), s.blk, s.off));
+            }
+        }
         // unique names
         let mut names: HashMap<[u8; 11], u32> = HashMap::new();
         for s in &live {
@@ -683,6 +692,7 @@ pub struct FsckOut {
     pub free: u32,
     pub nodes: usize,
     pub junk_exposed: Vec<(String, u32, u32)>,
+    pub junk_in_extent: Vec<(String, u32, u32)>,
 }
 
 #[derive(Clone, Copy, PartialEq, Debug)]
@@ -699,6 +709,7 @@ pub fn fsck(snap: &Snap, pending: &[Pending], mode: FsckMode) -> (FsckOut, Walk)
     let vol = &snap.vol;
     out.findings = w.findings.clone();
     out.junk_exposed = w.junk_exposed.clone();
+    out.junk_in_extent = w.junk_in_extent.clone();
     out.nodes = w.nodes.len();
     // size vs chain
     if mode == FsckMode::Live {
